@@ -154,36 +154,69 @@ Qed.
 
 (* ------------------------------------------------------------------ (c) the transaction vs (b) SimulateActions *)
 
-(* the recording scope never refuses: whatever a scoped run does, the recording run does *)
-Lemma check_record rec k p : check MRecord rec k p = Some (if valid_key k then (k, p) :: rec else rec).
+Lemma perm_of_invalid l k : decl_valid l = true -> valid_key k = false -> perm_of l k = 0.
+Proof.
+  induction l as [|[k' p] l IH]; intros Hd Hk; [reflexivity|]. cbn [perm_of].
+  unfold decl_valid in Hd. cbn [forallb fst] in Hd. apply andb_prop in Hd. destruct Hd as [Hk' Hd].
+  destruct (bytes_eqb k' k) eqn:E.
+  - apply bytes_eqb_eq in E. subst k'. rewrite Hk in Hk'. discriminate Hk'.
+  - apply IH; assumption.
+Qed.
+
+(* a scope built by Keys.Add (Transaction.StateKeys) grants nothing on a key shorter than two bytes *)
+Definition no_invalid (sc : key -> perm) : Prop := forall k, valid_key k = false -> sc k = 0.
+
+Lemma check_invalid sc rec k q : no_invalid sc -> valid_key k = false -> q <> 0 -> check (MScope sc) rec k q = None.
+Proof.
+  intros Hn Hk Hq. cbn [check]. rewrite (Hn k Hk). unfold has. rewrite N.ldiff_0_r.
+  destruct (N.eqb_spec q 0) as [E|_]; [contradiction|reflexivity].
+Qed.
+
+Lemma check_scope_valid sc rec k q rec1 :
+  no_invalid sc -> q <> 0 -> check (MScope sc) rec k q = Some rec1 -> valid_key k = true.
+Proof.
+  intros Hn Hq Hc. destruct (valid_key k) eqn:Hk; [reflexivity|].
+  rewrite (check_invalid sc rec k q Hn Hk Hq) in Hc. discriminate Hc.
+Qed.
+
+Lemma pr_nz : P_READ <> 0. Proof. discriminate. Qed.
+Lemma pw_nz : P_WRITE <> 0. Proof. discriminate. Qed.
+Lemma pa_nz : P_ALLOCATE <> 0. Proof. discriminate. Qed.
+
+Lemma check_record rec k p : check MRecord rec k p = if valid_key k then Some ((k, p) :: rec) else None.
 Proof. reflexivity. Qed.
 
-Lemma run_scope_record sc base p :
+(* the recording scope refuses only what every transaction scope refuses: whatever a run under a
+   transaction's scope does, the recording run does *)
+Lemma run_scope_record sc base p : no_invalid sc ->
   forall pend rec r0 o pend' rec', run (MScope sc) base p pend rec = Some (o, pend', rec') ->
     exists r1, run MRecord base p pend r0 = Some (o, pend', r1).
 Proof.
+  intros Hn.
   induction p as [o1| |k c IH|k v c IH|k c IH]; intros pend rec r0 o pend' rec'; cbn [run].
   - intros H; inversion H; subst. eexists; reflexivity.
   - discriminate.
-  - destruct (check (MScope sc) rec k P_READ) as [rec1|]; [|discriminate].
-    rewrite check_record. apply IH.
-  - destruct (check (MScope sc) rec k P_WRITE) as [rec1|]; [|discriminate].
-    rewrite check_record. destruct (negb (verify_value k v)); [discriminate|].
+  - destruct (check (MScope sc) rec k P_READ) as [rec1|] eqn:Hc; [|discriminate].
+    rewrite check_record, (check_scope_valid sc rec k P_READ rec1 Hn pr_nz Hc). apply IH.
+  - destruct (check (MScope sc) rec k P_WRITE) as [rec1|] eqn:Hc; [|discriminate].
+    rewrite check_record, (check_scope_valid sc rec k P_WRITE rec1 Hn pw_nz Hc).
+    destruct (negb (verify_value k v)); [discriminate|].
     destruct (vis base pend k); [apply IH|].
-    destruct (check (MScope sc) rec1 k P_ALLOCATE) as [rec2|]; [|discriminate].
-    rewrite check_record. apply IH.
-  - destruct (check (MScope sc) rec k P_WRITE) as [rec1|]; [|discriminate].
-    rewrite check_record. apply IH.
+    destruct (check (MScope sc) rec1 k P_ALLOCATE) as [rec2|] eqn:Hc2; [|discriminate].
+    rewrite check_record, (check_scope_valid sc rec1 k P_ALLOCATE rec2 Hn pa_nz Hc2). apply IH.
+  - destruct (check (MScope sc) rec k P_WRITE) as [rec1|] eqn:Hc; [|discriminate].
+    rewrite check_record, (check_scope_valid sc rec k P_WRITE rec1 Hn pw_nz Hc). apply IH.
 Qed.
 
-Lemma tx_sim sc base :
+Lemma tx_sim sc base : no_invalid sc ->
   forall ps pend os, run_tx sc base pend ps = (os, true) ->
     exists rs, run_sim base pend ps = Some rs /\ map fst rs = os.
 Proof.
+  intros Hn.
   induction ps as [|p rest IH]; intros pend os; cbn [run_tx run_sim].
   - intros H; inversion H; subst. exists []. split; reflexivity.
   - destruct (run (MScope sc) base p pend []) as [[[o pend'] rec]|] eqn:Hr; [|discriminate].
-    destruct (run_scope_record _ _ _ _ _ [] _ _ _ Hr) as [r1 Hr1]. rewrite Hr1.
+    destruct (run_scope_record _ _ _ Hn _ _ [] _ _ _ Hr) as [r1 Hr1]. rewrite Hr1.
     destruct (run_tx sc base pend' rest) as [os' ok] eqn:Ht. intros H; inversion H; subst.
     destruct (IH _ _ Ht) as [rs [Hs Hm]]. rewrite Hs.
     exists ((o, r1) :: rs). split; [reflexivity|]. cbn [map fst]. rewrite Hm. reflexivity.
@@ -244,8 +277,9 @@ Lemma simulate_eq_tx extra base fee (acts : list (checks * prog)) os :
   tx_run extra base fee acts = (os, true) ->
   exists rs, run_sim (vis base fee) [] (map snd acts) = Some rs /\ map fst rs = os.
 Proof.
-  unfold tx_run. destruct (decl_valid _); [|discriminate]. intros H.
-  rewrite run_sim_vis. cbn [app]. eapply tx_sim, H.
+  unfold tx_run. destruct (decl_valid _) eqn:Hd; [|discriminate]. intros H.
+  rewrite run_sim_vis. cbn [app]. eapply tx_sim; [|exact H].
+  intros k Hk. apply perm_of_invalid; assumption.
 Qed.
 
 (* ------------------------------------------------------------------ (b) the simulated key sets are sufficient *)
@@ -264,47 +298,46 @@ Proof.
   - destruct (bytes_eqb k' k); [apply has_lor_r|]; apply IH, Hin.
 Qed.
 
-(* A recording run of an action that touches valid keys only: the record grows by [new], every recorded key is
-   valid, and a view whose scope grants every recorded check runs the action to the same result. *)
+(* A successful recording run: the record grows by [new], every recorded key is valid, and a view whose scope
+   grants every recorded check runs the action to the same result. *)
 Lemma run_record_scope base p :
   forall pend rec o pend' rec',
     run MRecord base p pend rec = Some (o, pend', rec') ->
-    touch_valid base p pend = true ->
     exists new, rec' = new ++ rec
       /\ decl_valid new = true
       /\ forall sc r0, (forall k q, In (k, q) new -> has (sc k) q = true) ->
            run (MScope sc) base p pend r0 = Some (o, pend', r0).
 Proof.
-  induction p as [o1| |k c IH|k v c IH|k c IH]; intros pend rec o pend' rec'; cbn [run touch_valid].
-  - intros H _. inversion H; subst. exists []. split; [reflexivity|]. split; [reflexivity|].
+  induction p as [o1| |k c IH|k v c IH|k c IH]; intros pend rec o pend' rec'; cbn [run].
+  - intros H. inversion H; subst. exists []. split; [reflexivity|]. split; [reflexivity|].
     intros sc r0 _. reflexivity.
   - discriminate.
-  - rewrite check_record. intros Hr Hv. apply andb_prop in Hv. destruct Hv as [Hk Hv]. rewrite Hk in Hr.
-    destruct (IH _ _ _ _ _ _ Hr Hv) as [new [E [Hdv Hrun]]].
+  - rewrite check_record. destruct (valid_key k) eqn:Hk; [|discriminate]. intros Hr.
+    destruct (IH _ _ _ _ _ _ Hr) as [new [E [Hdv Hrun]]].
     exists (new ++ [(k, P_READ)]). split; [rewrite <- app_assoc; exact E|]. split.
     { unfold decl_valid in *. rewrite forallb_app, Hdv. cbn [forallb fst]. rewrite Hk. reflexivity. }
     intros sc r0 Hsc. cbn [check].
     rewrite (Hsc k P_READ) by (apply in_or_app; right; left; reflexivity).
     apply Hrun. intros k' q Hin. apply Hsc. apply in_or_app. left. exact Hin.
-  - rewrite check_record. intros Hr Hv. apply andb_prop in Hv. destruct Hv as [Hk Hv]. rewrite Hk in Hr.
+  - rewrite check_record. destruct (valid_key k) eqn:Hk; [|discriminate]. intros Hr.
     destruct (verify_value k v); cbn [negb] in *; [|discriminate].
     destruct (vis base pend k) as [old|] eqn:Hvis.
-    + destruct (IH _ _ _ _ _ Hr Hv) as [new [E [Hdv Hrun]]].
+    + destruct (IH _ _ _ _ _ Hr) as [new [E [Hdv Hrun]]].
       exists (new ++ [(k, P_WRITE)]). split; [rewrite <- app_assoc; exact E|]. split.
       { unfold decl_valid in *. rewrite forallb_app, Hdv. cbn [forallb fst]. rewrite Hk. reflexivity. }
       intros sc r0 Hsc. cbn [check].
       rewrite (Hsc k P_WRITE) by (apply in_or_app; right; left; reflexivity).
       apply Hrun. intros k' q Hin. apply Hsc. apply in_or_app. left. exact Hin.
     + rewrite check_record, Hk in Hr.
-      destruct (IH _ _ _ _ _ Hr Hv) as [new [E [Hdv Hrun]]].
+      destruct (IH _ _ _ _ _ Hr) as [new [E [Hdv Hrun]]].
       exists (new ++ [(k, P_ALLOCATE); (k, P_WRITE)]). split; [rewrite <- app_assoc; exact E|]. split.
       { unfold decl_valid in *. rewrite forallb_app, Hdv. cbn [forallb fst]. rewrite Hk. reflexivity. }
       intros sc r0 Hsc. cbn [check].
       rewrite (Hsc k P_WRITE) by (apply in_or_app; right; right; left; reflexivity).
       rewrite (Hsc k P_ALLOCATE) by (apply in_or_app; right; left; reflexivity).
       apply Hrun. intros k' q Hin. apply Hsc. apply in_or_app. left. exact Hin.
-  - rewrite check_record. intros Hr Hv. apply andb_prop in Hv. destruct Hv as [Hk Hv]. rewrite Hk in Hr.
-    destruct (IH _ _ _ _ _ Hr Hv) as [new [E [Hdv Hrun]]].
+  - rewrite check_record. destruct (valid_key k) eqn:Hk; [|discriminate]. intros Hr.
+    destruct (IH _ _ _ _ _ Hr) as [new [E [Hdv Hrun]]].
     exists (new ++ [(k, P_WRITE)]). split; [rewrite <- app_assoc; exact E|]. split.
     { unfold decl_valid in *. rewrite forallb_app, Hdv. cbn [forallb fst]. rewrite Hk. reflexivity. }
     intros sc r0 Hsc. cbn [check].
@@ -313,20 +346,20 @@ Proof.
 Qed.
 
 Lemma sim_tx base :
-  forall ps pend rs, run_sim base pend ps = Some rs -> sim_touch_valid base pend ps = true ->
+  forall ps pend rs, run_sim base pend ps = Some rs ->
     length rs = length ps
     /\ decl_valid (concat (map snd rs)) = true
     /\ forall sc, (forall k q, In (k, q) (concat (map snd rs)) -> has (sc k) q = true) ->
          run_tx sc base pend ps = (map fst rs, true).
 Proof.
-  induction ps as [|p rest IH]; intros pend rs; cbn [run_sim sim_touch_valid run_tx].
-  - intros H _. inversion H; subst. split; [reflexivity|]. split; [reflexivity|]. intros sc _. reflexivity.
+  induction ps as [|p rest IH]; intros pend rs; cbn [run_sim run_tx].
+  - intros H. inversion H; subst. split; [reflexivity|]. split; [reflexivity|]. intros sc _. reflexivity.
   - destruct (run MRecord base p pend []) as [[[o pend'] rec]|] eqn:Hr; [|discriminate].
     destruct (run_sim base pend' rest) as [rs'|] eqn:Hs; [|discriminate].
-    intros H Hv. inversion H; subst. apply andb_prop in Hv. destruct Hv as [Hv1 Hv2].
-    destruct (run_record_scope _ _ _ _ _ _ _ Hr Hv1) as [new [E [Hdv Hrun]]].
+    intros H. inversion H; subst.
+    destruct (run_record_scope _ _ _ _ _ _ _ Hr) as [new [E [Hdv Hrun]]].
     rewrite app_nil_r in E. subst rec.
-    destruct (IH _ _ Hs Hv2) as [Hlen [Hdv' Htx]].
+    destruct (IH _ _ Hs) as [Hlen [Hdv' Htx]].
     cbn [map fst snd concat length]. split; [rewrite Hlen; reflexivity|]. split.
     { unfold decl_valid in *. rewrite forallb_app, Hdv, Hdv'. reflexivity. }
     intros sc Hsc. rewrite (Hrun sc []).
@@ -349,77 +382,15 @@ Qed.
 (* --- C30, second sentence *)
 Lemma simulate_sufficient extra base fee (ps : list prog) rs :
   run_sim (vis base fee) [] ps = Some rs ->
-  sim_touch_valid base fee ps = true ->
   decl_valid extra = true ->
   tx_run extra base fee (combine (map snd rs) ps) = (map fst rs, true).
 Proof.
-  rewrite run_sim_vis. cbn [app]. intros Hs Hv Hx.
-  destruct (sim_tx _ _ _ _ Hs Hv) as [Hlen [Hdv Htx]].
+  rewrite run_sim_vis. cbn [app]. intros Hs Hx.
+  destruct (sim_tx _ _ _ _ Hs) as [Hlen [Hdv Htx]].
   assert (Hl : length (map snd rs) = length ps) by (rewrite map_length; exact Hlen).
   unfold tx_run, tx_scope. rewrite (map_fst_combine _ _ Hl), (map_snd_combine _ _ Hl).
   unfold decl_valid in *. rewrite forallb_app, Hdv, Hx. cbn [andb].
   apply Htx. intros k q Hin. rewrite perm_of_app. apply has_lor_l, perm_of_in, Hin.
-Qed.
-
-(* ------------------------------------------------------------------ the guard [sim_touch_valid] is exact *)
-
-Lemma perm_of_invalid l k : decl_valid l = true -> valid_key k = false -> perm_of l k = 0.
-Proof.
-  induction l as [|[k' p] l IH]; intros Hd Hk; [reflexivity|]. cbn [perm_of].
-  unfold decl_valid in Hd. cbn [forallb fst] in Hd. apply andb_prop in Hd. destruct Hd as [Hk' Hd].
-  destruct (bytes_eqb k' k) eqn:E.
-  - apply bytes_eqb_eq in E. subst k'. rewrite Hk in Hk'. discriminate Hk'.
-  - apply IH; assumption.
-Qed.
-
-Definition no_invalid (sc : key -> perm) : Prop := forall k, valid_key k = false -> sc k = 0.
-
-Lemma check_invalid sc rec k q : no_invalid sc -> valid_key k = false -> q <> 0 -> check (MScope sc) rec k q = None.
-Proof.
-  intros Hn Hk Hq. cbn [check]. rewrite (Hn k Hk). unfold has. rewrite N.ldiff_0_r.
-  destruct (N.eqb_spec q 0) as [E|_]; [contradiction|reflexivity].
-Qed.
-
-(* an action that touches an invalid key fails under every scope a transaction can have *)
-Lemma run_invalid_fails sc base p : no_invalid sc ->
-  forall pend rec, touch_valid base p pend = false -> run (MScope sc) base p pend rec = None.
-Proof.
-  intros Hn. induction p as [o| |k c IH|k v c IH|k c IH]; intros pend rec; cbn [touch_valid run].
-  - discriminate.
-  - discriminate.
-  - destruct (valid_key k) eqn:Hk; cbn [andb].
-    + intros Hv. destruct (check (MScope sc) rec k P_READ) as [rec1|]; [|reflexivity]. apply IH, Hv.
-    + intros _. rewrite (check_invalid sc rec k P_READ Hn Hk); [reflexivity|discriminate].
-  - destruct (valid_key k) eqn:Hk; cbn [andb].
-    + intros Hv. destruct (check (MScope sc) rec k P_WRITE) as [rec1|]; [|reflexivity].
-      destruct (verify_value k v); cbn [negb]; [|discriminate Hv].
-      destruct (vis base pend k); [apply IH, Hv|].
-      destruct (check (MScope sc) rec1 k P_ALLOCATE) as [rec2|]; [|reflexivity]. apply IH, Hv.
-    + intros _. rewrite (check_invalid sc rec k P_WRITE Hn Hk); [reflexivity|discriminate].
-  - destruct (valid_key k) eqn:Hk; cbn [andb].
-    + intros Hv. destruct (check (MScope sc) rec k P_WRITE) as [rec1|]; [|reflexivity]. apply IH, Hv.
-    + intros _. rewrite (check_invalid sc rec k P_WRITE Hn Hk); [reflexivity|discriminate].
-Qed.
-
-Lemma tx_invalid_fails sc base : no_invalid sc ->
-  forall ps pend, sim_touch_valid base pend ps = false -> snd (run_tx sc base pend ps) = false.
-Proof.
-  intros Hn. induction ps as [|p rest IH]; intros pend; cbn [sim_touch_valid run_tx].
-  - discriminate.
-  - destruct (touch_valid base p pend) eqn:Hv; cbn [andb].
-    + intros Hrest.
-      destruct (run (MScope sc) base p pend []) as [[[o pend'] rec]|] eqn:Hr; [|reflexivity].
-      destruct (run_scope_record _ _ _ _ _ [] _ _ _ Hr) as [r1 Hr1]. rewrite Hr1 in Hrest.
-      specialize (IH pend' Hrest). destruct (run_tx sc base pend' rest) as [os ok]. exact IH.
-    + intros _. rewrite (run_invalid_fails sc base p Hn pend [] Hv). reflexivity.
-Qed.
-
-(* whatever its actions declare, no transaction runs actions that touch an invalid key to success *)
-Lemma touching_invalid_never_executes extra base fee (acts : list (checks * prog)) :
-  sim_touch_valid base fee (map snd acts) = false -> snd (tx_run extra base fee acts) = false.
-Proof.
-  intros Hv. unfold tx_run. destruct (decl_valid (tx_scope extra (map fst acts))) eqn:Hd; [|reflexivity].
-  apply tx_invalid_fails; [|exact Hv]. intros k Hk. apply perm_of_invalid; assumption.
 Qed.
 
 (* ------------------------------------------------------------------ monotonicity, transaction level *)
@@ -438,15 +409,15 @@ Qed.
 (* each action's own simulated key set is sufficient for that action under the per-action scope of
    ExecuteActions (every check the action performed was recorded in its own set) *)
 Lemma sim_exec base :
-  forall ps pend rs, run_sim base pend ps = Some rs -> sim_touch_valid base pend ps = true ->
+  forall ps pend rs, run_sim base pend ps = Some rs ->
     run_exec base pend (combine (map snd rs) ps) = (map fst rs, true).
 Proof.
-  induction ps as [|p rest IH]; intros pend rs; cbn [run_sim sim_touch_valid].
-  - intros H _. inversion H; subst. reflexivity.
+  induction ps as [|p rest IH]; intros pend rs; cbn [run_sim].
+  - intros H. inversion H; subst. reflexivity.
   - destruct (run MRecord base p pend []) as [[[o pend'] rec]|] eqn:Hr; [|discriminate].
     destruct (run_sim base pend' rest) as [rs'|] eqn:Hs; [|discriminate].
-    intros H Hv. inversion H; subst. apply andb_prop in Hv. destruct Hv as [Hv1 Hv2].
-    destruct (run_record_scope _ _ _ _ _ _ _ Hr Hv1) as [new [E [_ Hrun]]].
+    intros H. inversion H; subst.
+    destruct (run_record_scope _ _ _ _ _ _ _ Hr) as [new [E [_ Hrun]]].
     rewrite app_nil_r in E. subst rec.
     cbn [map fst snd combine run_exec].
     pose proof (Hrun (perm_of new) [] (fun k q Hin => perm_of_in new k q Hin)) as Hsc.
@@ -455,12 +426,11 @@ Proof.
     destruct (run (MScope (perm_of new)) (vis base pend) p [] []) as [[[o2 pd] rc]|]; cbn [shift] in Hsh;
       [|discriminate Hsh].
     injection Hsh as E1 E2 E3. subst o2 pend'.
-    rewrite (IH _ _ Hs Hv2). reflexivity.
+    rewrite (IH _ _ Hs). reflexivity.
 Qed.
 
 Lemma simulate_sufficient_execute base fee (ps : list prog) rs :
   run_sim (vis base fee) [] ps = Some rs ->
-  sim_touch_valid base fee ps = true ->
   run_exec (vis base fee) [] (combine (map snd rs) ps) = (map fst rs, true).
 Proof.
   rewrite run_sim_vis, run_exec_vis. cbn [app]. apply sim_exec.
